@@ -6,7 +6,8 @@ from ..gen import Gen
 
 ID = 'C20'
 LEAN_TARGETS = ['Properties.C20']
-THEOREMS = ['SaveFS.C20_atomic', 'SaveFS.C20_success', 'SaveFS.C20_raises_iff']
+THEOREMS = ['SaveFS.C20_atomic', 'SaveFS.C20_success', 'SaveFS.C20_raises_iff', 'CliPatch.C20_patch_reproduces_at', 'CliPatch.C20_patch_reproduces',
+            'CliPatch.C20_patch_reproduces_nested_objects', 'CliPatch.C20_patch_reproduces_list']
 RULE = ('generated pairs of JSON documents (string keys; list/dict/str/int/short float/bool/None) x {--backup, none} x a fault injected at each '
         'point of the save path (serialise, open, write incl. partial writes, close) or none; the real CLI runs through click.testing.CliRunner in '
         'a scratch directory; the observed (A content, A.bak, raised) is compared with the Lean state machine. distinct = distinct (A, B, backup, fault); '
